@@ -54,9 +54,27 @@ def h_cc(ch, w, path):
 
 
 def h_addr(ch, w, path):
-    wc, acc = ch.ctx.sint(ch.name(path + 'wc'), 8), ch.ctx.bytes_(ch.name(path + 'acc'), 32)
+    """addr_std with or without anycast; every other address of an instance names the SAME account as the one before it, with
+    its own anycast part (objects shared between parsed addresses would show)"""
+    prev = getattr(ch, '_addr', None)
+    if prev is not None and ch._h('r' + path) % 2 == 0:
+        wc, acc = prev
+    else:
+        wc, acc = ch.ctx.sint(ch.name(path + 'wc'), 8), ch.ctx.bytes_(ch.name(path + 'acc'), 32)
+    ch._addr = (wc, acc)
+    d = (0, 5, 0, 30)[ch._h('y' + path) % 4]
+    plan = getattr(ch, 'addr_plan', None)
+    if plan:
+        d = plan.pop(0)
+        if prev is not None:
+            wc, acc = prev
+            ch._addr = prev
+    if d:
+        pfx = ch.ctx.uint(ch.name(path + 'pfx'), d)
+        w_addr(w, ('any', d, pfx, wc, acc))
+        return Exp(_cons='addr_std', _type='addr', wc=wc, hash_part=acc, _anycast=(d, pfx))
     w_addr(w, ('std', wc, acc))
-    return Exp(_cons='addr_std', _type='addr', wc=wc, hash_part=acc)
+    return Exp(_cons='addr_std', _type='addr', wc=wc, hash_part=acc, _anycast=None)
 
 
 def h_anycell(ch, w, path):
@@ -190,7 +208,14 @@ def match(got, exp, path, out):
             out.append((path + '.other', ok))
             return
         if t == 'addr':
-            out.append((path, isinstance(got, Address) and And(got.wc == exp['wc'], got.hash_part == exp['hash_part'])))
+            ok = isinstance(got, Address) and And(got.wc == exp['wc'], got.hash_part == exp['hash_part'])
+            if isinstance(got, Address):
+                ac = exp.get('_anycast')
+                if ac is None:
+                    ok = And(ok, got.anycast is None)
+                else:
+                    ok = And(ok, got.anycast is not None and And(got.anycast.depth == ac[0], got.anycast.rewrite_pfx == ac[1]))
+            out.append((path, ok))
             return
         if t == 'Message':
             wc, acc, fee, body = exp['_msg']
@@ -289,6 +314,30 @@ def h_type(ctx, root, force=None, seed=0, fsel=0, twin=None):
         ctx.require(s.bits.to01() == tail, f'{root}: consumes exactly the encoded bits')
         ctx.require(s.remaining_refs == (1 if nrefs < 4 else 0), f'{root}: consumes exactly the encoded references')
     ctx.observe('bits', len(w.b))
+
+
+def h_two_accounts(ctx, plan):
+    """several Account values naming the same account with different anycast parts, parsed one after the other in one process:
+    every result has its own anycast, and earlier results do not change"""
+    ch = Chooser(ctx, 1, None, 99)
+    ch.addr_plan = list(plan)
+    ch.depth = 5
+    made = []
+    for i in range(len(plan)):          # all values are generated before the library is called (a probe of an unfinished path
+        w = W()                         # needs every input to exist in the model)
+        ch.force['Account'] = 1
+        ch.force['AccountState'] = 0
+        e = gen_type(ch, 'Account', w, f'acc{i}', HOOKS)
+        made.append((to_real(warm(w.cell())), e))
+    parsed = []
+    for cell, e in made:
+        got = AC.Account.deserialize(cell.begin_parse())
+        parsed.append((got, e))
+        for g, ex in parsed:
+            out = []
+            match(g, ex, 'Account', out)
+            for p, c in out:
+                ctx.require(c, 'several values in one process: field ' + _gen_path(p))
 
 
 def h_blockinfo(ctx, not_master, after_merge, vert_incr, flag0, seed=0, fsel=0):
@@ -487,6 +536,8 @@ def h_lint(ctx):
 
 def instances(tier, seed):
     yield 'h_lint', dict()
+    for plan in ([5, 0], [0, 30, 0], [3, 7], [0, 0, 9]):
+        yield 'h_two_accounts', dict(plan=plan)
     yield 'h_mainnet_block', dict()
     for nm in (0, 1):
         for am in (0, 1):
